@@ -24,7 +24,7 @@ ASSUMPTIONS = [
     "trajectories: every particle moves per appended frame by one letter of {0, +s e_x, -s e_y, +b e_x (, +s e_z in 3D)}, "
     "s ~ 0.2, b ~ 0.9 (inside / outside every mobility cutoff); base positions, s and b are multiples of 2^-20 picked by "
     "VERIF_SEED, so all displacements are exact in binary floating point; nothing is claimed about other real values",
-    "evenly spaced timesteps 500+100k for Dynamics, 500+{0,1,10,100,1000} for LogDynamics, dt = 0.002",
+    "evenly spaced timesteps 500+100k for Dynamics, 500+{0,1,10,100,1000} for LogDynamics, dt = 0.002 (C06.scale also (dt, step) = (0.001, 300), (0.005, 7))",
     "selections are boolean masks with the same number of selected particles in every frame (otherwise N in chi4 is undefined)",
     "neighbour files are written by the harness (k nearest by minimum image, k = 1, 2, or ragged: 1 / 2 nearest alternating; every particle has >= 1 neighbour); "
     "the file is an input, the neighbour search itself is C05's subject",
@@ -590,7 +590,8 @@ def gen_s4(tier, seed):
 
 
 # ------------------------------------------------------------------------------------------ scale slice
-SCALE_DEFAULT = {"d": 2, "mode": "xu", "cal": "slow", "sel": "none", "neigh": "none", "diam": "mixed", "qconst": "2pi", "a": 0.3}
+SCALE_DEFAULT = {"d": 2, "mode": "xu", "cal": "slow", "sel": "none", "neigh": "none", "diam": "mixed", "qconst": "2pi", "a": 0.3, "tgrid": 0}
+TGRIDS = [(0.002, 100), (0.001, 300), (0.005, 7)]  # (dt, steps between frames): intervals 0.2, 0.3, 0.035
 SCALE_DOMS = collections.OrderedDict(
     [
         ("d", [2, 3]),
@@ -598,19 +599,21 @@ SCALE_DOMS = collections.OrderedDict(
         ("cal", ["slow", "fast"]),
         ("sel", ["none", "one", "most", "half"]),
         ("neigh", ["none", "first", "last", "formula", "wide"]),
-        ("diam", ["mixed", "eq"]),
+        ("diam", ["mixed", "eq", "lone"]),  # lone: only the LAST particle belongs to species 2 (diameter 1.5)
         ("qconst", ["2pi", "5", "7.25"]),
         ("a", [0.3, 0.5]),
+        ("tgrid", [0, 1, 2]),
     ]
 )
 QCONST["7.25"] = 7.25
+DIAMS["lone"] = DIAMS["mixed"]
 # hand-made covering list: every value of every option, and the pairs that matter (wrapped input x cage, changing mask x ragged list,
 # fast x mixed diameters, count-1 mask x cage)
 SCALE_CORE = [
     {},
     {"d": 3, "mode": "x", "cal": "fast", "sel": "most", "neigh": "first", "diam": "eq", "qconst": "5"},
-    {"mode": "both", "sel": "one", "neigh": "last", "qconst": "5"},
-    {"d": 3, "cal": "fast", "sel": "half", "neigh": "formula"},
+    {"mode": "both", "sel": "one", "neigh": "last", "qconst": "5", "tgrid": 1},
+    {"d": 3, "cal": "fast", "sel": "half", "neigh": "formula", "diam": "lone", "tgrid": 2},
     {"mode": "x", "sel": "most", "neigh": "formula", "a": 0.5},
     {"d": 3, "mode": "both", "cal": "fast", "neigh": "wide", "diam": "eq"},
     {"mode": "x", "sel": "one", "neigh": "first", "diam": "eq", "qconst": "5"},
@@ -644,7 +647,7 @@ def scale_world(case):
     o = case["opts"]
     d = o["d"]
     xs, L, maxdisp = X.trajectory(seed, T, N, d)
-    types = X.types_for(N)
+    types = X.types_for(N) if o["diam"] != "lone" else [1] * (N - 1) + [2]
     diam = DIAMS[o["diam"]]
     sigma = [diam[t] for t in types]
     masks = None if o["sel"] == "none" else X.masks_for(T, N, o["sel"])
@@ -686,14 +689,19 @@ def run_scale(case):
     if nls is not None:
         nfile = "c06_nls.dat"
         write_neighbor_file(nfile, nls)
-    kw = dict(dt=DT, diameters=dict(diam), a=a, cal_type=o["cal"], neighborfile=nfile)
+    dt, dstep = TGRIDS[o["tgrid"]]
+    kw = dict(dt=dt, diameters=dict(diam), a=a, cal_type=o["cal"], neighborfile=nfile)
     ref = X.Ref(xs, sigma, a, fast, sel=masks, nls=nls)
+    # sq4 takes its own selection argument: whenever the case carries masks, sq4 is driven with the N-1 masks (a count-1 mask makes the
+    # mobile selected subset empty at some origin for almost every lag, which is outside the domain); none for N = 2
+    masks4 = None if (masks is None or N < 3) else X.masks_for(T, N, "most")
+    ref4 = X.Ref(xs, sigma, a, fast, sel=masks4, nls=nls)
     h = hashlib.sha1()
     rows = 0
     stats = {"q_mixed": 0, "chi": 0, "s4": 0, "s4_outside": 0, "s4_inexact": 0, "skipq": 0}
     for cls in ("lin", "log"):
-        steps = [500 + 100 * t for t in range(T)] if cls == "lin" else [500 + 3 * t + (t * (t + 1)) // 2 for t in range(T)]
-        times = [(s_ - steps[0]) * DT for s_ in steps]
+        steps = [500 + dstep * t for t in range(T)] if cls == "lin" else [500 + 3 * t + (t * (t + 1)) // 2 for t in range(T)]
+        times = [(s_ - steps[0]) * dt for s_ in steps]
         exp, margin = ref.relaxation(qconst, times, log=(cls == "log"))
         D, snaps = scale_objects(cls, mode, xs, L, types, steps, kw)
         before = [[s_.positions.copy() for s_ in sn.snapshots] for sn in snaps]
@@ -727,21 +735,23 @@ def run_scale(case):
             stats["q_mixed"] += int(np.any((obs[:, 2] > 0.0) & (obs[:, 2] < 1.0)))
             h.update(np.round(np.nan_to_num(obs, nan=-7.0), 9).tobytes())
     # ---- four-point structure factor at several lags (incl. lags whose quotient t / interval is inexact in floating point)
-    steps = [500 + 100 * t for t in range(T)]
-    time0 = float(((np.array(steps)[1:] - steps[0]) * DT)[0])
-    qrange = round(6.5 * math.pi / max(L), 9)  # numofq = int(6.5) = 6 for every box
+    steps = [500 + dstep * t for t in range(T)]
+    time0 = float(((np.array(steps)[1:] - steps[0]) * dt)[0])
+    # numofq = int(f) for every box: 6 (10 / 39 wave vectors in 2D / 3D) for the long trajectories; for the wide ones (<= 4 origins) 24 in 2D
+    # (70 wave vectors) and 12 in 3D (135 wave vectors), so that the wave-vector count straddles 64 / 128 as well
+    qrange = round((6.5 if T > 6 else (24.5 if d == 2 else 12.5)) * math.pi / max(L), 9)
     qvecs = RD.qset(L, qrange, d)
     pos_sq = xs if mode == "xu" else X.wrap(xs, L)
     for k in case["lags"]:
-        got = ref.sq4(k, pos_sq, L, qvecs)
+        got = ref4.sq4(k, pos_sq, L, qvecs)
         if got is None or got[1] < X.CUT_MARGIN or X.key_gap(got[0]) < 1e-6:
             stats["s4_outside"] += 1
             continue
         groups, margin, sizes = got
-        t_arg = round(k * 100 * DT, 9)
+        t_arg = round(k * dstep * dt, 9)  # the lag as a user would type it (0.6, not 3 * 0.2 = 0.6000000000000001)
         stats["s4_inexact"] += int(t_arg / time0 != float(k))
         D, snaps = scale_objects("lin", mode, xs, L, types, steps, kw)
-        cond = None if masks is None else masks.copy()
+        cond = None if masks4 is None else masks4.copy()
         res = D.sq4(t=t_arg, qrange=qrange, condition=cond)
         stats["s4"] += 1
         if list(res.columns) != ["q", "Sq"]:
@@ -760,16 +770,15 @@ def run_scale(case):
             bad = f"S4(q={exp[j, 0]:.6f}) = {obs[j, 1]!r}, reference {exp[j, 1]!r} (mobile subset sizes {min(sizes)}..{max(sizes)} over {len(sizes)} origins)"
         if bad:
             R.fail(f"Dynamics.sq4[{mode}] lag {k} (t={t_arg!r}): {bad} ({where})", sig=dict(sig, clause="s4", col="Sq"), exp=exp, obs=obs)
-        if masks is not None and not np.array_equal(cond, masks):
+        if masks4 is not None and not np.array_equal(cond, masks4):
             R.fail("condition modified by sq4()", sig=dict(sig, clause="input_modified"))
         h.update(np.round(obs, 7).tobytes())
     if nfile:
         os.remove(nfile)
     R.out = h.hexdigest()[:16]
     R.elem = rows
-    # rule: the overlap is strictly between 0 and 1 in some row and (unless the case selects one particle per frame, where the mobile
-    # selected subset is empty at some origin for most lags) at least one S4 lag was inside the domain and compared
-    R.nontrivial = stats["q_mixed"] > 0 and (stats["s4"] > 0 or o["sel"] == "one")
+    # rule: the overlap is strictly between 0 and 1 in some row and at least one S4 lag was inside the domain and compared
+    R.nontrivial = stats["q_mixed"] > 0 and stats["s4"] > 0
     R.notes = stats
     return R
 
@@ -792,7 +801,7 @@ def gen_sequence(tier, seed):
 
 
 class SeqWorld:
-    """two small trajectories (object A: T=5, N=5; object B: T=4, N=3, other diameters / cutoff / mode) and the call alphabet"""
+    """two small trajectories (object A: T=5, N=5; object B: T=4, N=3, other dimension / diameters / cutoff / mode) and the call alphabet"""
 
     def __init__(self, case):
         seed = int(case["seed"])
@@ -812,8 +821,8 @@ class SeqWorld:
             self.nfile = "c06_seq.dat"
             write_neighbor_file(self.nfile, self.nls)
         self.kw = dict(dt=DT, diameters=dict(self.diam), a=0.3, cal_type="slow", neighborfile=self.nfile)
-        # object B: another trajectory, fast, a = 0.5, equal diameters, no neighbour file, always xu
-        self.xsB, self.LB, _ = X.trajectory(seed + 17, 4, 3, d)
+        # object B: another trajectory of the OTHER dimension (2D <-> 3D), fast, a = 0.5, equal diameters, no neighbour file, always xu
+        self.xsB, self.LB, _ = X.trajectory(seed + 17, 4, 3, 5 - d)
         self.kwB = dict(dt=DT, diameters=dict(DIAMS["eq"]), a=0.5, cal_type="fast", neighborfile="")
         self.stepsB = [0, 50, 100, 150] if self.cls == "lin" else [0, 1, 10, 100]
         self.qrange = {"s1": round(6.5 * math.pi / max(self.L), 9), "s3": round(8.5 * math.pi / max(self.L), 9)}
@@ -1015,14 +1024,15 @@ def subs(tier, seed):
                  + ("8 hand-made option vectors" if q else "8 hand-made option vectors + all vectors with <= 1 deviation from the default")
                  + " over d{2,3} x input{xu, x wrapped, both} (box edges (m+4, m, m+2): the shortest edge is y) x {slow,fast} x selection{none, "
                  "1 / N-1 / N/2 particles, a different set in every frame} x neighbour file{none, ragged lists changing every frame with the maximum "
-                 "coordination number at the first / last particle only, formula, one particle with 30 = max_neighbors} x diameters x qconst x a; "
+                 "coordination number at the first / last particle only, formula, one particle with 30 = max_neighbors} x diameters {mixed, equal, a species "
+                 "with ONE member} x qconst x a x (dt, step) {(0.002,100),(0.001,300),(0.005,7)}; "
                  "every row of Dynamics.relaxation and LogDynamics.relaxation and Dynamics.sq4 at lags {1,3,6,7,T/2,T-2} (t/interval inexact for "
-                 "3,6,7) against a vectorised transcription of the definitions organised by origin frame; non-trivial = some overlap strictly "
+                 "3,6,7; default wave-vector sets of 10 / 39 vectors for the long and 70 / 135 vectors for the wide trajectories) against a vectorised transcription of the definitions organised by origin frame; non-trivial = some overlap strictly "
                  "between 0 and 1 and some S4 lag inside the domain",
             bounds={"sizes": len(SCALE_TN_QUICK if q else SCALE_TN_FULL), "max_frames": 129, "max_particles": 257 if q else 1000}),
         Sub("C06.sequence", with_seed(gen_sequence), run_sequence,
-            rule="explicit-state search over call sequences of length <= 3 on ONE Dynamics / LogDynamics object (plus a second live object B with "
-                 "other diameters / cutoff / mode): events relaxation(2pi), relaxation(5), relaxation(2pi, mask N-1), relaxation(5, mask 1), "
+            rule="explicit-state search over call sequences of length <= 3 on ONE Dynamics / LogDynamics object (plus a second live object B of the "
+                 "other dimension with other diameters / cutoff / mode): events relaxation(2pi), relaxation(5), relaxation(2pi, mask N-1), relaxation(5, mask 1), "
                  "sq4(lag 1), sq4(lag 3, other qrange), sq4(lag 1, mask), B.relaxation(3.3); all 8+64+512 sequences per world "
                  "(d x input mode x {no, ragged} neighbour file), split by first event; every call's result == the same call on a fresh object "
                  "(which is compared with the definition); snapshots unchanged; states = distinct digests of the objects' attributes",
